@@ -85,5 +85,5 @@ pub fn run(ctx: &Ctx) {
     set_rule("C14", "histories: initial state of F in {absent, empty, specification-written keyring of 1..3 entries with/without trailing newline, with/without comment and blank lines, with/without private keys} followed by 1..4 `kestrel key generate -o F --env-pass` runs of the binary built from the working tree, with distinct names from the domain key generation accepts and arbitrary UTF-8 passwords (incl. empty and > 64 bytes). After every step: earlier bytes are a prefix of the new bytes, the file parses with the working tree's Keyring::new, every name so far is present, the new key unlocks under its own password and matches its PublicKey line; finally encrypt/decrypt between generated keys. Non-trivial = >= 2 generations or a generation into an existing file; distinct by hash of the history");
     ctx.assume("Linux; no terminal (the name is supplied on stdin, the password through KESTREL_PASSWORD)");
     ctx.shrink_iters.store(40, std::sync::atomic::Ordering::Relaxed);
-    ctx.pbt("keygen_histories", ctx.n(96, 2_500), strat, check);
+    ctx.pbt("keygen_histories", ctx.n(160, 2_500), strat, check);
 }
